@@ -112,6 +112,13 @@ let () =
     | [hex] -> (match reverse_search (bytes_of_hex hex) with
         | None -> "-1" | Some i -> string_of_int (int_of_n i))
     | _ -> "badargs");
+  register "inflate" (fun args -> match args with
+    | [hex] ->
+      let r = inflate (bytes_of_hex hex) in
+      (match r.ir_err with
+       | None -> Printf.sprintf "nil %s %d" (hex_of_bytes r.ir_out) (int_of_n r.ir_used)
+       | Some e -> Printf.sprintf "%s %s" (err_name e) (hex_of_bytes r.ir_out))
+    | _ -> "badargs");
   register "mhl" (fun args -> match args with
     | [z; o] -> let (h, inv) = computeHuffLen (n_of_int (int_of_string z)) (n_of_int (int_of_string o)) in
       Printf.sprintf "%d %b" (int_of_n h) inv
